@@ -194,6 +194,11 @@ func inputLetters(rec bool) func(w *drv.World) []string {
 				ls = append(ls, fmt.Sprintf("P:0/%s/u", dt))
 			}
 			ls = append(ls, "P:2/1/n,3/0/e,10/-1/L300")
+			// a body above 64 KiB (where the readers' length guards start to look at the file size):
+			// it ends its segment and is read through the mmap reader once the next publish has rolled over
+			if w.M.Next < 3 {
+				ls = append(ls, "P:0/1/L70000")
+			}
 		}
 		ls = append(ls, singleDeletes(w)...)
 		ls = append(ls, "R:", "RX:all")
